@@ -59,6 +59,14 @@ func UtxoValidateOutsideValidityIntervalUtxo(
 ) error {
 	validityIntervalStart := tx.ValidityIntervalStart()
 	if validityIntervalStart == 0 || slot >= validityIntervalStart {
+		// The upper bound (invalid_hereafter) is exclusive: the transaction
+		// is only valid at slots strictly before it
+		if ttl := tx.TTL(); ttl != 0 && slot >= ttl {
+			return shelley.ExpiredUtxoError{
+				Ttl:  ttl,
+				Slot: slot,
+			}
+		}
 		return nil
 	}
 	return OutsideValidityIntervalUtxoError{
